@@ -569,6 +569,18 @@ func collectedThenSorted(p *Prog, l *mapLoop, phi *ssa.Phi) string {
 				default:
 					others = append(others, r)
 				}
+			case *ssa.Return:
+				// a helper that only collects: the obligation moves to every caller, where the result must be sorted
+				// before any other use
+				idx := -1
+				for i, res := range r.Results {
+					if res == v {
+						idx = i
+					}
+				}
+				if idx < 0 || !returnedThenSorted(p, r.Parent(), idx, 0) {
+					others = append(others, ref)
+				}
 			default:
 				others = append(others, ref)
 			}
@@ -576,6 +588,77 @@ func collectedThenSorted(p *Prog, l *mapLoop, phi *ssa.Phi) string {
 	}
 	collect(phi)
 	return checkSortedUses(p, phi, sortersAt, others)
+}
+
+// returnedThenSorted: at every static call site of fn, result #idx is sorted (or only consumed order-insensitively)
+// before any other use.
+func returnedThenSorted(p *Prog, fn *ssa.Function, idx int, depth int) bool {
+	if depth > 1 {
+		return false
+	}
+	callers := p.callersOf(fn)
+	if len(callers) == 0 {
+		return false
+	}
+	for _, e := range callers {
+		site, ok := e.Site.(*ssa.Call)
+		if !ok || site.Common().IsInvoke() {
+			return false
+		}
+		var res ssa.Value = site
+		if fn.Signature.Results().Len() > 1 {
+			res = nil
+			for _, ref := range *site.Referrers() {
+				if ex, ok := ref.(*ssa.Extract); ok && ex.Index == idx {
+					res = ex
+				}
+			}
+			if res == nil {
+				continue // result unused at this site
+			}
+		}
+		var sortersAt, others []ssa.Instruction
+		seen := map[ssa.Value]bool{}
+		var collect func(v ssa.Value)
+		collect = func(v ssa.Value) {
+			if seen[v] || v.Referrers() == nil {
+				return
+			}
+			seen[v] = true
+			for _, ref := range *v.Referrers() {
+				switch r := ref.(type) {
+				case *ssa.ChangeType:
+					collect(r)
+				case *ssa.MakeInterface:
+					collect(r)
+				case *ssa.Convert:
+					collect(r)
+				case *ssa.Phi:
+					collect(r)
+				case *ssa.DebugRef:
+				case ssa.CallInstruction:
+					name := calleeFullName(r.Common())
+					if f := staticCallee(r.Common()); f != nil && inPkg(f, p.SPkg) {
+						name = FuncName(f)
+					}
+					switch {
+					case sorters[name]:
+						sortersAt = append(sortersAt, r)
+					case orderInsensitiveConsumers[name], name == "builtin.len", name == "builtin.cap":
+					default:
+						others = append(others, r)
+					}
+				default:
+					others = append(others, ref)
+				}
+			}
+		}
+		collect(res)
+		if checkSortedUses(p, res, sortersAt, others) != "" {
+			return false
+		}
+	}
+	return true
 }
 
 // checkSortedUses: every other use is dominated by an in-place sort, or reads the only element of a
